@@ -837,13 +837,13 @@ void caseRefuse(vrt::Case& c)
 int main(int argc, char** argv)
 {
   vector<vrt::Group> groups = {
-    { "int", 5000, 120000, caseInt, 300, false },
-    { "product", 2000, 45000, caseProduct, 300, false },
-    { "svd", 5000, 120000, caseSvd, 300, false },
-    { "triangular", 6000, 144000, caseTriangular, 300, false },
-    { "singular", 4000, 90000, caseSingular, 300, false },
-    { "scaled", 3000, 60000, caseScaled, 300, false },
-    { "refuse", 1000, 6000, caseRefuse, 300, false },
+    { "int", 10000, 480000, caseInt, 300, false },
+    { "product", 4000, 180000, caseProduct, 300, false },
+    { "svd", 10000, 480000, caseSvd, 300, false },
+    { "triangular", 12000, 576000, caseTriangular, 300, false },
+    { "singular", 8000, 360000, caseSingular, 300, false },
+    { "scaled", 6000, 240000, caseScaled, 300, false },
+    { "refuse", 2000, 24000, caseRefuse, 300, false },
   };
   vrt::Meta meta;
   meta.rule = "One case = one square matrix, n = 1 + index mod 10, from the generator of its group: int (entries in [-9,9]: dense, sparse, {-1,0,1}, zero diagonal, ties, "
